@@ -84,14 +84,25 @@ def _self_call(c: ast.Call) -> Optional[str]:
 
 def _top_attr(e: ast.AST) -> Optional[str]:
     """attribute the expression itself reads (`x.y.closure_trackers` -> closure_trackers), through list()/tuple()"""
-    while isinstance(e, ast.Call) and isinstance(e.func, ast.Name) and e.func.id in ("list", "tuple", "iter", "reversed") and len(e.args) == 1:
-        e = e.args[0]
+    while True:
+        if isinstance(e, ast.Call) and isinstance(e.func, ast.Name) and e.func.id in ("list", "tuple", "iter", "reversed") and len(e.args) == 1:
+            e = e.args[0]
+        elif isinstance(e, ast.Subscript) and isinstance(e.slice, ast.Slice):
+            e = e.value
+        else:
+            break
     r = getattr_norm(e)
     return r[1] if r is not None else None
 
 
 def _has_cyc(e: ast.AST) -> bool:
     return any(isinstance(n, ast.Name) and n.id.startswith(CYC) for n in ast.walk(e))
+
+
+def _bare_cyc(e: ast.AST) -> bool:
+    """a loop carried accumulator (`key = f(x) + key`) occurs as an operand itself, not as the object something is read off"""
+    based = {id(n.value) for n in ast.walk(e) if isinstance(n, ast.Attribute)}
+    return any(isinstance(n, ast.Name) and n.id.startswith(CYC) and id(n) not in based for n in ast.walk(e))
 
 
 def _strip_sa(a: str) -> str:
@@ -579,6 +590,10 @@ def r2(ctx):
         w = g.must_pass(body, fors + [g.exit], app, edge_ok=no_exc) if body else ["?"]
         if w is not None:
             bad.append("an iteration over the closure getters can end without recording the getter's result")
+    it = gen.iter if gen is not None else node.iter
+    for a in S.ctx_alts(it):
+        if getattr_norm(a) is None:
+            bad.append(f"only `{unparse(it)[:50]}` of the closure getters is iterated: some closure variables do not reach the key")
     roles = rt.key_roles()
     if "closure" not in roles:
         bad.append("the getters are not called with the __closure__ of the current function")
@@ -877,3 +892,678 @@ R.mutant("benign-r3-hit-path-inverted-if", LAM,
          chain(sub("        if rec is None:\n            if cache_key is not _cache_key.NO_CACHE:\n                with AnalyzedCode._generation_mutex:",
                    "        if rec is not None:\n" + _HIT.replace("            ", "            ", 1) + "        else:\n            if cache_key is not _cache_key.NO_CACHE:\n                with AnalyzedCode._generation_mutex:"),
                sub("                rec = NonAnalyzedFunction(self._invoke_user_fn(fn))\n\n        else:\n" + _HIT, "                rec = NonAnalyzedFunction(self._invoke_user_fn(fn))\n")), None)
+
+
+# ---------------------------------------------------------------------- C17-R4: PyWrapper
+def _attr_is(e: ast.AST, name: str, root: Optional[str] = None) -> bool:
+    r = getattr_norm(e)
+    if r is None or _strip_sa(r[1]) != name:
+        return False
+    return root is None or (isinstance(r[0], ast.Name) and r[0].id == root)
+
+
+def _has_sa_attr(e: ast.AST, name: str) -> bool:
+    return any(_strip_sa(a) == name for _, a in attr_reads(e))
+
+
+@R.rule("C17-R4", floor=5, template="T-FLOW/T-PATH",
+        desc="PyWrapper: _extract_bound_parameters takes the new value from its argument and re-applies every recorded "
+             "attribute/item path to it; _add_getter records every literal sub-value under the key it looks it up with, together "
+             "with the getter that produced it; the has-parameter flag is raised only where a parameter is created")
+def r4(ctx):
+    cls = ctx.index.cls(PW)
+    f = ctx.func(f"{PW}._extract_bound_parameters")
+    S, g = _S(ctx, f), None
+    g = S.g
+    ctx.require(len(f.params) >= 3, f"{f.key}: expected (self, value, result list)")
+    me, val, res = f.params[0], f.params[1], f.params[2]
+    # ---- P1: own parameter
+    bad = []
+    wv = [c for c in calls_in(f.node) if isinstance(c.func, ast.Attribute) and c.func.attr == "_with_value" and c.args]
+    wv = [c for c in wv if any(_has_sa_attr(a, "_param") for a in S.ctx_alts(c.func.value))]
+    if not wv:
+        bad.append("the wrapper's own parameter is never given a value (`<param>._with_value(...)` not found)")
+    for c in wv:
+        for a in S.ctx_alts(c.args[0]):
+            if not (isinstance(a, ast.Name) and a.id == val):
+                bad.append(f"the parameter gets `{unparse(a)[:60]}` instead of the value extracted from the current closure (`{val}`)")
+        apps = [x for x in calls_in(f.node) if isinstance(x.func, ast.Attribute) and x.func.attr in ("append", "extend")
+                and isinstance(x.func.value, ast.Name) and x.func.value.id == res and x.args
+                and any(contains_orig(a, c) for a in S.ctx_alts(x.args[0]))]
+        if not apps:
+            bad.append(f"the re-valued parameter is not appended to the result list `{res}`")
+        for x in apps:
+            for t, pol in S.guards(S.node_of(x)):
+                isnone = isinstance(t, ast.Compare) and isinstance(t.ops[0], ast.Is) and isinstance(t.comparators[0], ast.Constant) \
+                    and t.comparators[0].value is None and any(_has_sa_attr(a, "_param") for a in S.alts(t.left, S.node_of(t.left)))
+                if not (isnone and not pol):
+                    bad.append(f"appending the parameter is conditional on `{unparse(orig(t))[:50]}`")
+    ctx.check(not bad, f"{f.key}:own-parameter:value-from-argument", "; ".join(bad) + " -- go(5); go(7): the second statement runs with 5",
+              f"<param>._with_value({val}) appended to {res}", loc(f, wv[0]) if wv else loc(f))
+    # ---- P2 / P3: nested paths
+    loops = [n for n in walk_local(f.node) if isinstance(n, ast.For) and any(_has_sa_attr(a, "_bind_paths") for a in S.ctx_alts(n.iter))]
+    ctx.require(len(loops) == 1, f"{f.key}: expected one loop over the recorded bind paths, found {len(loops)}")
+    lp = loops[0]
+    rec_calls = []
+    for st in lp.body:
+        for c in ast.walk(st):
+            if isinstance(c, ast.Call):
+                r = getattr_norm(c.func)
+                if r is not None and _strip_sa(r[1]) == "_extract_bound_parameters":
+                    rec_calls.append((c, r[0]))
+    bad = []
+    if not rec_calls:
+        bad.append("sub-wrappers recorded for attribute / item access are never asked for their parameters")
+    for c, recv in rec_calls:
+        if len(c.args) < 2:
+            bad.append("recursive extraction without (value, result list)")
+            continue
+        subs = [ast.dump(a) for a in S.ctx_alts(recv)]
+        for a in S.ctx_alts(c.args[0]):
+            okv = isinstance(a, ast.Call) and len(a.args) == 1 and isinstance(a.args[0], ast.Name) and a.args[0].id == val \
+                and _attr_is(a.func, "_getter") and ast.dump(getattr_norm(a.func)[0]) in subs
+            if not okv:
+                bad.append(f"the sub-wrapper is given `{unparse(a)[:70]}` instead of <its recorded getter>({val})")
+        for a in S.ctx_alts(c.args[1]):
+            if not (isinstance(a, ast.Name) and a.id == res):
+                bad.append(f"the sub-wrapper extracts into `{unparse(a)[:40]}`, not into `{res}`")
+    ctx.check(not bad, f"{f.key}:bind-paths:getter-reapplied-to-argument", "; ".join(sorted(set(bad))) +
+              " -- def go(o): return lambda_stmt(lambda: select(t).where(t.c.q == o.x)); go(O(5)); go(O(7)) runs with 5",
+              f"each sub-wrapper: extract(<sub>._getter({val}), {res})", loc(f, lp))
+    bad = []
+    for a in S.ctx_alts(lp.iter):
+        if not (isinstance(a, ast.Call) and isinstance(a.func, ast.Attribute) and a.func.attr in ("values", "items") and not a.args
+                or getattr_norm(a) is not None):
+            bad.append(f"only `{unparse(lp.iter)[:50]}` of the recorded paths is visited")
+    fors = [n.id for n in g.nodes if n.kind == "for" and n.stmt is lp]
+    calln = [S.node_of(c) for c, _ in rec_calls]
+    body = [b for b, lab in g.succ[fors[0]] if lab == "true" and b not in calln]
+    if rec_calls:
+        w = g.must_pass(body, fors + [g.exit], calln, edge_ok=no_exc) if body else None
+        if w is not None:
+            bad.append("an iteration over the recorded paths can finish without extracting that path's parameters")
+        after = g.reachable([b for n_ in calln for b in normal_succ(g, n_)], avoid=fors, edge_ok=no_exc)
+        if g.exit in after:
+            bad.append("the loop over the recorded paths is left after the first path")
+    ctx.check(not bad, f"{f.key}:bind-paths:every-path-visited", "; ".join(bad) + " -- lambda: and_(t.c.a == o.x, t.c.b == o.y): o.y keeps its first value",
+              "every recorded path, every iteration", loc(f, lp))
+    # ---- P4: _add_getter
+    fa = ctx.func(f"{PW}._add_getter")
+    SA, ga = _S(ctx, fa), None
+    ga = SA.g
+    cons = [c for c in calls_in(fa.node) if (dotted(c.func) or "").split(".")[-1] == "PyWrapper"]
+    ctx.require(cons, f"{fa.key}: no sub-wrapper is constructed")
+    bad = []
+    stores = []
+    lookups = []
+    for n in walk_local(fa.node):
+        if isinstance(n, ast.Subscript) and any(_has_sa_attr(a, "_bind_paths") for a in SA.ctx_alts(n.value)):
+            (stores if isinstance(n.ctx, ast.Store) else lookups).append(n)
+        if isinstance(n, ast.Compare) and len(n.ops) == 1 and isinstance(n.ops[0], (ast.In, ast.NotIn)) \
+                and any(_has_sa_attr(a, "_bind_paths") for a in SA.ctx_alts(n.comparators[0])):
+            lookups.append(n)
+    def keys_of(n):
+        kx = n.left if isinstance(n, ast.Compare) else n.slice
+        return {ast.dump(a) for a in SA.ctx_alts(kx)}
+    for c in cons:
+        cn = SA.node_of(c)
+        mine = [s_ for s_ in stores if any(contains_orig(a, c) for a in SA.alts(SA._root_of[id(s_)].value, SA.node_of(s_)))
+                ] if stores else []
+        if not mine:
+            bad.append("the sub-wrapper is handed to the lambda but not recorded in the bind paths: its parameter is never re-extracted")
+            continue
+        sn = [SA.node_of(s_) for s_ in mine]
+        w = ga.must_pass([b for b in normal_succ(ga, cn) if b not in sn] if cn not in sn else [], [ga.exit], sn, edge_ok=no_exc)
+        if w is not None:
+            bad.append("a path returns the new sub-wrapper without recording it")
+        lk = set()
+        for l_ in lookups:
+            lk |= keys_of(l_)
+        for s_ in mine:
+            if lookups and not (keys_of(s_) <= lk):
+                bad.append("the sub-wrapper is recorded under a key other than the one it is looked up with: a second access of the same "
+                           "attribute creates a second parameter and only the last is re-extracted")
+        b = {k.arg: k.value for k in c.keywords}
+        gk = b.get("getter")
+        v = c.args[2] if len(c.args) > 2 else b.get("to_evaluate")
+        if gk is None or v is None:
+            bad.append("the sub-wrapper is constructed without its value / getter")
+        else:
+            gd = {ast.dump(a) for a in SA.ctx_alts(gk)}
+            for a in SA.ctx_alts(v):
+                if not (isinstance(a, ast.Call) and ast.dump(a.func) in gd):
+                    bad.append(f"the sub-wrapper's value `{unparse(a)[:50]}` is not what its recorded getter produces")
+    ctx.check(not bad, f"{fa.key}:literal-subvalue-recorded", "; ".join(sorted(set(bad))),
+              "PyWrapper(fn, key, getter(elem), getter=getter) stored under the lookup key", loc(fa, cons[0]))
+    # ---- P5: has-param flag
+    bad = []
+    n_sites = 0
+    for name, m in sorted(cls.methods.items()):
+        for t, n, st in attr_stores(m.node):
+            if _strip_sa(t.split(".")[-1]) != "_has_param" or not t.startswith("self."):
+                continue
+            n_sites += 1
+            SM = _S(ctx, m)
+            at = SM.g.nodes_for(st)[0]
+            vals = SM.alts(st.value, at)
+            truthy = [a for a in vals if not (isinstance(a, ast.Constant) and a.value in (False, None, 0))]
+            if not truthy:
+                continue
+            mk = nodes_with(SM.g, lambda x: isinstance(x, ast.Call) and (dotted(x.func) or "").split(".")[-1] == "BindParameter")
+            if not mk or SM.g.always_preceded(at, mk) is not None:
+                bad.append(f"{m.qualname} raises the has-parameter flag without having created a parameter")
+    fl = ctx.func(f"{PW}._py_wrapper_literal")
+    SL = _S(ctx, fl)
+    mk = nodes_with(SL.g, lambda x: isinstance(x, ast.Call) and (dotted(x.func) or "").split(".")[-1] == "BindParameter")
+    ctx.require(mk, f"{fl.key}: no BindParameter is created")
+    for i in mk:
+        once = any(pol and isinstance(t, ast.Compare) and isinstance(t.ops[0], ast.Is) and isinstance(t.comparators[0], ast.Constant)
+                   and t.comparators[0].value is None and any(_has_sa_attr(a, "_param") for a in SL.alts(t.left, SL.node_of(t.left)))
+                   for t, pol in SL.guards(i))
+        if not once:
+            bad.append("a new parameter (new unique key) is created on every use of the wrapper: only the last one is re-extracted")
+        flag = [j for t, n, st in attr_stores(fl.node) if _strip_sa(t.split(".")[-1]) == "_has_param" for j in SL.g.nodes_for(st)]
+        keep = [j for t, n, st in attr_stores(fl.node) if _strip_sa(t.split(".")[-1]) == "_param" for j in SL.g.nodes_for(st)]
+        for what, nodes in (("has-parameter flag", flag), ("parameter", keep)):
+            nodes = [j for j in nodes if j != i] or nodes
+            if i in nodes:
+                continue
+            starts = [b for b in normal_succ(SL.g, i) if b not in nodes]
+            if not nodes or (starts and SL.g.must_pass(starts, [SL.g.exit], nodes, edge_ok=no_exc) is not None):
+                bad.append(f"the {what} is not stored after a parameter was created")
+    ctx.check(not bad, f"{PW}:has-param-flag:only-where-created", "; ".join(sorted(set(bad))) +
+              " -- a closure value used in a Python conditional (`if flag`) is then not added to the cache key",
+              f"{n_sites} store(s); flag raised only after BindParameter(...), created once", loc(fl))
+
+
+R.mutant("r4-own-param-stored-value", LAM,
+         sub("            param = param._with_value(starting_point, maintain_key=True)\n",
+             "            param = param._with_value(\n                object.__getattribute__(self, \"_to_evaluate\"), maintain_key=True\n            )\n"), "C17-R4")
+R.mutant("r4-subpath-from-stored-value", LAM,
+         sub("            element = getter(starting_point)\n", "            element = getter(object.__getattribute__(self, \"_to_evaluate\"))\n"), "C17-R4")
+R.mutant("r4-subpath-gets-parent-value", LAM,
+         sub("            pywrapper._sa__extract_bound_parameters(element, result_list)", "            pywrapper._sa__extract_bound_parameters(starting_point, result_list)"), "C17-R4")
+R.mutant("r4-first-path-only", LAM,
+         sub("            pywrapper._sa__extract_bound_parameters(element, result_list)\n", "            pywrapper._sa__extract_bound_parameters(element, result_list)\n            break\n"), "C17-R4")
+R.mutant("r4-subwrapper-not-recorded", LAM, sub("            bind_paths[bind_path_key] = wrapper\n", "            pass\n"), "C17-R4")
+R.mutant("r4-subwrapper-other-key", LAM, sub("            bind_paths[bind_path_key] = wrapper\n", "            bind_paths[key] = wrapper\n"), "C17-R4")
+R.mutant("r4-flag-raised-at-construction", LAM, sub("        self._has_param = False\n", "        self._has_param = True\n"), "C17-R4")
+R.mutant("r4-param-recreated-every-use", LAM, sub("        if param is None:\n            name = object.__getattribute__(self, \"_name\")\n            self._param = param",
+                                                  "        if True:\n            name = object.__getattribute__(self, \"_name\")\n            self._param = param"), "C17-R4")
+R.mutant("benign-r4-spelling", LAM,
+         chain(sub("        param = object.__getattribute__(self, \"_param\")\n        if param is not None:\n            param = param._with_value(starting_point, maintain_key=True)\n            result_list.append(param)",
+                   "        own = self._sa__param\n        if own is not None:\n            result_list.append(own._with_value(starting_point, maintain_key=True))"),
+               sub("            getter = object.__getattribute__(pywrapper, \"_getter\")\n            element = getter(starting_point)\n            pywrapper._sa__extract_bound_parameters(element, result_list)",
+                   "            sub_value = pywrapper._sa__getter(starting_point)\n            pywrapper._sa__extract_bound_parameters(sub_value, result_list)")), None)
+R.mutant("benign-r4-add-getter-early-return", LAM,
+         sub("        if coercions._deep_is_literal(rolled_down_value):\n            wrapper = PyWrapper(self._sa_fn, key, value, getter=getter)\n            bind_paths[bind_path_key] = wrapper\n            return wrapper\n        else:\n            return value",
+             "        if not coercions._deep_is_literal(rolled_down_value):\n            return value\n        made = bind_paths[bind_path_key] = PyWrapper(\n            self._sa_fn, key, value, getter=getter\n        )\n        return made"), None)
+
+
+# ---------------------------------------------------------------------- C17-R5: consumers of the per-invocation state
+def _setup_calls(fnode) -> List[ast.Call]:
+    return [c for c in calls_in(fnode) if _self_call(c) == "_setup_binds_for_tracked_expr"]
+
+
+def _falsy_edges(S: Sub, attr: str) -> Set[Tuple[int, str]]:
+    """branch outcomes under which `<x>.<attr>` is falsy"""
+    out = set()
+    for n in S.g.nodes:
+        if n.kind != "test":
+            continue
+        for lab in ("true", "false"):
+            for t, pol in conj(n.stmt.test, lab == "true"):
+                if not pol and any(_top_attr(a) == attr for a in S.alts(t, n.id)):
+                    out.add((n.id, lab))
+    return out
+
+
+@R.rule("C17-R5", floor=7, template="T-FLOW/T-PATH",
+        desc="the expression handed to the compiler has the per-invocation parameters spliced in by key (_resolved, "
+             "_resolve_with_args, _setup_binds_for_tracked_expr); _gen_cache_key = code + closure key of the element and its "
+             "parents, extracts the per-invocation parameters, and marks NO_CACHE")
+def r5(ctx):
+    # ---- C1: _resolved
+    f = ctx.func(f"{LE}._resolved")
+    S, g = _S(ctx, f), None
+    g = S.g
+    sc = [S.node_of(c) for c in _setup_calls(f.node)]
+    bad = []
+    if not sc:
+        bad.append("the cached expression is returned without splicing in the per-invocation parameters")
+    else:
+        cut = _falsy_edges(S, "_resolved_bindparams")
+        w = g.witness([g.entry], [g.exit], avoid=sc, edge_ok=lambda a, b, lab: lab != "exc" and (a, lab) not in cut)
+        if w is not None:
+            bad.append("a path with per-invocation parameters returns the cached expression as it is")
+        for r_ in [n for n in walk_local(f.node) if isinstance(n, ast.Return) and n.value is not None]:
+            for a in S.alts(r_.value, S.node_of(r_.value)):
+                spliced = [c for c in ast.walk(a) if isinstance(c, ast.Call) and _self_call(c) == "_setup_binds_for_tracked_expr"]
+                if spliced:
+                    if not all(c.args and _has_sa_attr(c.args[0], "expected_expr") for c in spliced):
+                        bad.append("what is spliced is not the record's expected_expr")
+                elif _top_attr(a) != "expected_expr":
+                    bad.append(f"returns `{unparse(a)[:60]}`")
+    ctx.check(not bad, f"{f.key}:parameters-spliced", "; ".join(sorted(set(bad))) + " -- go(5); go(7): the second element's _resolved carries 5",
+              "record's expected_expr through _setup_binds_for_tracked_expr whenever there are parameters", loc(f))
+    # ---- C2 / C3: _setup_binds_for_tracked_expr
+    f2 = ctx.func(f"{LE}._setup_binds_for_tracked_expr")
+    S2 = _S(ctx, f2)
+    trav = [c for c in calls_in(f2.node) if (dotted(c.func) or "").split(".")[-1] == "replacement_traverse"]
+    ctx.require(trav, f"{f2.key}: no replacement traversal")
+    defs = {d.name: d for d in nested_defs(f2.node)}
+    used = set()
+    bad = []
+    for c in trav:
+        fnarg = [a for a in list(c.args) + [k.value for k in c.keywords] if isinstance(a, ast.Name) and a.id in defs]
+        if not fnarg:
+            bad.append(f"`{unparse(c)[:50]}` does not use the parameter-replacing function")
+        used |= {a.id for a in fnarg}
+    ctx.require(used, f"{f2.key}: the replacing function is not a nested def")
+    rep = defs[sorted(used)[0]]
+    SR = _S(ctx, rep)
+    p0 = rep.args.args[0].arg if rep.args.args else None
+    lookups = set()
+    rets = [r_ for r_ in walk_local(rep) if isinstance(r_, ast.Return) and r_.value is not None
+            and not (isinstance(r_.value, ast.Constant) and r_.value.value is None)]
+    if not rets:
+        bad.append("the replacing function never returns a replacement")
+    for r_ in rets:
+        for a in SR.alts(r_.value, SR.node_of(r_.value)):
+            okr = isinstance(a, ast.Subscript) and isinstance(a.value, ast.Name) and a.value.id not in local_names(rep) \
+                and _attr_is(a.slice, "key", p0)
+            if okr:
+                lookups.add(a.value.id)
+            else:
+                bad.append(f"the replacement returned is `{unparse(a)[:50]}`, not the per-invocation parameter with the visited parameter's key")
+    for nm in lookups:
+        for a in S2.free(ast.Name(id=nm, ctx=ast.Load()), rep):
+            okd = isinstance(a, ast.DictComp) and len(a.generators) == 1 and _top_attr(a.generators[0].iter) == "_resolved_bindparams" \
+                and isinstance(getattr_norm(a.generators[0].iter)[0], ast.Name) and getattr_norm(a.generators[0].iter)[0].id == "self" \
+                and isinstance(a.key, ast.Attribute) and a.key.attr == "key" and is_pseudo(a.key.value, ELEM) and is_pseudo(a.value, ELEM)
+            if not okd:
+                bad.append(f"the lookup the replacement comes from is `{unparse(a)[:70]}`, not {{p.key: p for p in self._resolved_bindparams}}")
+    ctx.check(not bad, f"{f2.key}:replace-by-key-from-per-invocation-list", "; ".join(sorted(set(bad))),
+              "BindParameter with a known key -> the per-invocation parameter of that key", loc(f2, rep))
+    g2 = S2.g
+    tn = [S2.node_of(c) for c in trav]
+    cut = set()
+    for n in g2.nodes:
+        if n.kind == "test":
+            for lab in ("true", "false"):
+                for t, pol in conj(n.stmt.test, lab == "true"):
+                    if not pol and ("is_clause_element" in unparse(t)):
+                        cut.add((n.id, lab))
+    w = g2.witness([g2.entry], [g2.exit], avoid=tn, edge_ok=lambda a, b, lab: lab != "exc" and (a, lab) not in cut)
+    ctx.check(w is None, f"{f2.key}:every-expression-shape-traversed",
+              "a SQL expression (or a list of them) is returned without the replacement traversal",
+              "sequence and single clause element are both traversed", loc(f2), g2.describe_path(w) if w else None)
+    # ---- C4: _resolve_with_args
+    f3 = ctx.func(f"{LAM}::DeferredLambdaElement._resolve_with_args")
+    S3 = _S(ctx, f3)
+    bad = []
+    rets = [r_ for r_ in walk_local(f3.node) if isinstance(r_, ast.Return) and r_.value is not None]
+    ctx.require(rets, f"{f3.key}: no return")
+    for r_ in rets:
+        alts = S3.alts(r_.value, S3.node_of(r_.value))
+        settled = [a for a in alts if not _has_cyc(a)] or alts
+        for a in settled:
+            sp = [c for c in ast.walk(a) if isinstance(c, ast.Call) and _self_call(c) == "_setup_binds_for_tracked_expr"]
+            if not sp:
+                bad.append("the expression built by the instrumented function at compile time is returned with the parameters of the "
+                           "invocation that built the record")
+            elif not all(any(_has_sa_attr(x, "tracker_instrumented_fn") for x in ast.walk(c)) for c in sp):
+                bad.append("what is spliced is not the instrumented function's result")
+    ctx.check(not bad, f"{f3.key}:parameters-spliced", "; ".join(sorted(set(bad))) + " -- with_loader_criteria(A, lambda cls: cls.x == v) with v changing",
+              "tracker_instrumented_fn(*args) -> _setup_binds_for_tracked_expr", loc(f3))
+    # ---- C5 .. C7: _gen_cache_key
+    f4 = ctx.func(f"{LE}._gen_cache_key")
+    S4, g4 = _S(ctx, f4), None
+    g4 = S4.g
+    ctx.require(len(f4.params) >= 3, f"{f4.key}: expected (self, anon_map, bindparams)")
+    amap, blist = f4.params[1], f4.params[2]
+    rets = [r_ for r_ in walk_local(f4.node) if isinstance(r_, ast.Return) and r_.value is not None
+            and not (isinstance(r_.value, ast.Constant) and r_.value.value is None)]
+    bad = []
+    if not rets:
+        bad.append("no key is returned")
+    for r_ in rets:
+        alts = S4.alts(r_.value, S4.node_of(r_.value))
+        base = [a for a in alts if not _bare_cyc(a)] or alts         # what the accumulator starts from / is rebuilt as
+        own_ok = all(any(_attr_is(n, "closure_cache_key", "self") for n in ast.walk(a)) for a in base)
+        code_ok = all(any(_attr_is(n, "__code__") and _attr_is(getattr_norm(n)[0], "fn", "self") for n in ast.walk(a)) for a in base)
+        par_ok = any(any(_attr_is(n, "closure_cache_key") and not _attr_is(n, "closure_cache_key", "self") and
+                         (has_attr(n, "parent_lambda") or _has_cyc(n)) for n in ast.walk(a)) for a in alts)
+        parcode_ok = any(any(_attr_is(n, "__code__") and (has_attr(n, "parent_lambda") or _has_cyc(n)) for n in ast.walk(a)) for a in alts)
+        if not own_ok:
+            bad.append("the key lacks the element's closure cache key (structure-changing closure values)")
+        if not code_ok:
+            bad.append("the key lacks the lambda's code object")
+        if not par_ok:
+            bad.append("the key lacks the parent elements' closure cache keys")
+        if not parcode_ok:
+            bad.append("the key lacks the parent lambdas' code objects")
+    ctx.check(not bad, f"{f4.key}:key-components", "; ".join(sorted(set(bad))) + " -- two statements differing in a closure column share one compiled form",
+              "code + closure key of the element and of every parent", loc(f4))
+    ext = [c for c in calls_in(f4.node) if isinstance(c.func, ast.Attribute) and c.func.attr in ("extend", "__iadd__")
+           and isinstance(c.func.value, ast.Name) and c.func.value.id == blist and c.args
+           and any(_attr_is(a, "_resolved_bindparams", "self") for a in S4.ctx_alts(c.args[0]))]
+    extn = [S4.node_of(c) for c in ext]
+    for n in g4.nodes:
+        if n.kind == "stmt" and isinstance(n.stmt, ast.AugAssign) and isinstance(n.stmt.target, ast.Name) and n.stmt.target.id == blist \
+                and _attr_is(n.stmt.value, "_resolved_bindparams", "self"):
+            extn.append(n.id)
+    bad = []
+    if not extn:
+        bad.append("the per-invocation parameters are never added to the extracted parameters")
+    else:
+        retn = [S4.node_of(r_.value) for r_ in rets]
+        cut = _falsy_edges(S4, "_resolved_bindparams")
+        w = g4.witness([g4.entry], retn, avoid=extn, edge_ok=lambda a, b, lab: lab != "exc" and (a, lab) not in cut)
+        if w is not None:
+            bad.append("a key is returned without adding the per-invocation parameters to the extracted parameters")
+    ctx.check(not bad, f"{f4.key}:parameters-extracted", "; ".join(bad) + " -- the compiled form is shared through the compiled cache and takes "
+              "its values from the extracted parameters: go(5); go(7) executes with 5", f"{blist}.extend(self._resolved_bindparams) before every key", loc(f4))
+    marks = [n for n in walk_local(f4.node) if isinstance(n, ast.Subscript) and isinstance(n.ctx, ast.Store)
+             and isinstance(n.value, ast.Name) and n.value.id == amap and _is_nocache(n.slice)]
+    bad = []
+    if not marks:
+        bad.append("an uncacheable element does not mark the anon_map NO_CACHE")
+    for mk in marks:
+        g_ok = any(pol and _nocache_atom(t) is not None and _nocache_atom(t)[0] == "is" and _attr_is(_nocache_atom(t)[1], "closure_cache_key", "self")
+                   for t, pol in S4.guards(S4.node_of(mk)))
+        if not g_ok:
+            bad.append("the NO_CACHE mark does not depend on self.closure_cache_key being NO_CACHE")
+    for r_ in rets:
+        g_ok = any((not pol) and _nocache_atom(t) is not None and _attr_is(_nocache_atom(t)[1], "closure_cache_key", "self")
+                   for t, pol in S4.guards(S4.node_of(r_.value)))
+        if not g_ok:
+            bad.append("a key is returned also when self.closure_cache_key is NO_CACHE")
+    ctx.check(not bad, f"{f4.key}:no-cache-marked", "; ".join(sorted(set(bad))) + " -- a statement with an uncacheable closure element would be "
+              "served from the compiled cache", "NO_CACHE closure key -> anon_map[NO_CACHE] = True, no key", loc(f4))
+
+
+R.mutant("r5-resolved-returns-cached-expression", LAM,
+         sub("        if self._resolved_bindparams:\n            expr = self._setup_binds_for_tracked_expr(expr)\n\n        return expr\n\n    def _gen_cache_key",
+             "        if not self._resolved_bindparams:\n            expr = self._setup_binds_for_tracked_expr(expr)\n\n        return expr\n\n    def _gen_cache_key"), "C17-R5")
+R.mutant("r5-replace-returns-visited", LAM, sub("                    return bind\n", "                    return element\n"), "C17-R5")
+R.mutant("r5-lookup-from-record", LAM,
+         sub("        bindparam_lookup = {b.key: b for b in self._resolved_bindparams}", "        bindparam_lookup = {b.key: b for b in self._rec.closure_bindparams or ()}"), "C17-R5")
+R.mutant("r5-sequence-not-traversed", LAM,
+         sub("        if self._rec.is_sequence:\n            expr = [\n                visitors.replacement_traverse(sub_expr, {}, replace)\n                for sub_expr in expr\n            ]\n        elif getattr",
+             "        if self._rec.is_sequence:\n            expr = list(expr)\n        elif getattr"), "C17-R5")
+R.mutant("r5-resolve-with-args-unspliced", LAM,
+         sub("        expr = self._setup_binds_for_tracked_expr(expr)\n\n        # this validation is getting very close", "        # this validation is getting very close"), "C17-R5")
+R.mutant("r5-cache-key-without-closure-key", LAM,
+         sub("        cache_key = (\n            self.fn.__code__,\n            self.__class__,\n        ) + self.closure_cache_key\n",
+             "        cache_key = (\n            self.fn.__code__,\n            self.__class__,\n        )\n"), "C17-R5")
+R.mutant("r5-parent-closure-key-dropped", LAM,
+         sub("                (parent.fn.__code__,) + parent_closure_cache_key + cache_key\n", "                (parent.fn.__code__,) + cache_key\n"), "C17-R5")
+R.mutant("r5-parameters-not-extracted", LAM,
+         sub("        if self._resolved_bindparams:\n            bindparams.extend(self._resolved_bindparams)\n        return cache_key", "        return cache_key"), "C17-R5")
+R.mutant("r5-no-cache-not-marked", LAM,
+         sub("        if self.closure_cache_key is _cache_key.NO_CACHE:\n            anon_map[_cache_key.NO_CACHE] = True\n            return None\n",
+             "        if self.closure_cache_key is _cache_key.NO_CACHE:\n            return None\n"), "C17-R5")
+R.mutant("benign-r5-restructured", LAM,
+         chain(sub("        expr = self._rec.expected_expr\n\n        if self._resolved_bindparams:\n            expr = self._setup_binds_for_tracked_expr(expr)\n\n        return expr\n\n    def _gen_cache_key",
+                   "        cached = self._rec.expected_expr\n        if not self._resolved_bindparams:\n            return cached\n        return self._setup_binds_for_tracked_expr(cached)\n\n    def _gen_cache_key"),
+               sub("        bindparam_lookup = {b.key: b for b in self._resolved_bindparams}", "        current = {p.key: p for p in self._resolved_bindparams}"),
+               sub("                if element.key in bindparam_lookup:\n                    bind = bindparam_lookup[element.key]", "                if element.key in current:\n                    bind = current[element.key]"),
+               sub("        if self._resolved_bindparams:\n            bindparams.extend(self._resolved_bindparams)\n        return cache_key",
+                   "        mine = self._resolved_bindparams\n        if mine:\n            bindparams.extend(mine)\n        return cache_key")), None)
+
+
+# ---------------------------------------------------------------------- C17-R6: classification is exhaustive
+def _append_nodes(S: Sub, fnode, list_attr: str) -> List[Tuple[int, ast.Call]]:
+    out = []
+    for c in calls_in(fnode):
+        if isinstance(c.func, ast.Attribute) and c.func.attr in ("append", "extend") and c.args \
+                and any(_top_attr(a) == list_attr for a in S.ctx_alts(c.func.value)):
+            out.append((S.node_of(c), c))
+    return out
+
+
+def _edges_where(S: Sub, pred) -> Set[Tuple[int, str]]:
+    """(test node, label) whose outcome includes an atom (expr alternatives, polarity) accepted by pred"""
+    out = set()
+    for n in S.g.nodes:
+        if n.kind != "test":
+            continue
+        for lab in ("true", "false"):
+            for t, pol in conj(n.stmt.test, lab == "true"):
+                if pred(S.alts(t, n.id), pol, t):
+                    out.add((n.id, lab))
+    return out
+
+
+def _loop_over(S: Sub, fnode, attr: str) -> List[ast.For]:
+    return [n for n in walk_local(fnode) if isinstance(n, ast.For)
+            and any(any(_strip_sa(x) == attr for _, x in attr_reads(a)) for a in S.ctx_alts(n.iter))]
+
+
+def _every_iteration(S: Sub, loop: ast.For, through: List[int], cut: Set[Tuple[int, str]]):
+    g = S.g
+    fors = [n.id for n in g.nodes if n.kind == "for" and n.stmt is loop and not n.copy]
+    body = [b for b, lab in g.succ[fors[0]] if lab == "true" and b not in through]
+    if not body:
+        return None
+    w = g.witness(body, fors + [g.exit], avoid=through, edge_ok=lambda a, b, lab: lab != "exc" and (a, lab) not in cut)
+    return g.describe_path(w) if w else None
+
+
+def _default_truth(e: ast.AST, defaults: Dict[str, object]):
+    """value of an option expression under the default LambdaOptions (None = cannot tell)"""
+    if isinstance(e, ast.Constant):
+        return e.value
+    r = getattr_norm(e)
+    if r is not None and r[1] in defaults and isinstance(r[0], ast.Name):
+        return defaults[r[1]]
+    if isinstance(e, ast.UnaryOp) and isinstance(e.op, ast.Not):
+        v = _default_truth(e.operand, defaults)
+        return None if v is _UNK else (not v)
+    if isinstance(e, ast.BoolOp):
+        vals = [_default_truth(v, defaults) for v in e.values]
+        if any(v is _UNK for v in vals):
+            return _UNK
+        if isinstance(e.op, ast.And):
+            for v in vals:
+                if not v:
+                    return v
+            return vals[-1]
+        for v in vals:
+            if v:
+                return v
+        return vals[-1]
+    return _UNK
+
+
+_UNK = object()
+
+
+def _outcome(test: ast.expr, atom: ast.AST, pol: bool) -> bool:
+    """the outcome (True/False edge) of `test` under which `atom` has polarity `pol`"""
+    for lab in (True, False):
+        for t, p in conj(test, lab):
+            if (orig(t) is orig(atom) or t is atom) and p == pol:
+                return lab
+    return pol
+
+
+@R.rule("C17-R6", floor=9, template="T-EXHAUST/T-PATH",
+        desc="AnalyzedCode classifies every closure cell (wrapped as potential bound value / cache-key tracked / rejected) and "
+             "every literal global; a wrapped value always gets its bound-value getter for the same name / index; wrappers "
+             "that did not become parameters become cache-key trackers; the phases run unless a documented option turns "
+             "them off and all option guards are on under the default LambdaOptions")
+def r6(ctx):
+    code = _code(ctx)
+    meths = code.methods
+    # ---- locate the phases
+    def find(attr):
+        hits = [(m, lp) for nm, m in sorted(meths.items()) for lp in _loop_over(_S(ctx, m), m.node, attr)]
+        ctx.require(len(hits) == 1, f"AnalyzedCode: expected one loop over `{attr}`, found {len(hits)}")
+        return hits[0]
+    mc, lc = find("co_freevars")
+    mg, lg = find("co_names")
+    mp, lpw = find("closure_pywrappers")
+    opt_off = lambda name: (lambda alts, pol, t: (not pol) and any(_top_attr(a) == name for a in alts))
+    # ---- E1 closure cells
+    S = _S(ctx, mc)
+    wraps = _append_nodes(S, mc.node, "build_py_wrappers")
+    keys = _append_nodes(S, mc.node, "closure_trackers")
+    binds = _append_nodes(S, mc.node, "bindparam_trackers")
+    ctx.require(wraps and keys and binds, f"{mc.key}: registration sites not found (wrappers {len(wraps)}, key getters {len(keys)}, bound getters {len(binds)})")
+    cut = _edges_where(S, opt_off("track_closure_variables"))
+    w = _every_iteration(S, lc, [n for n, _ in wraps + keys], cut)
+    ctx.check(w is None, f"{mc.key}:every-cell-classified",
+              "a closure cell can be skipped: it is neither wrapped as a potential bound value nor made part of the cache key nor rejected -- "
+              "its later values are invisible (stale SQL or stale parameter)",
+              "each cell: wrapper | cache-key getter | error (only track_closure_variables=False skips)", loc(mc, lc), w)
+    cutb = _edges_where(S, opt_off("track_bound_values"))
+    bad = []
+    for n, c in wraps:
+        w = S.g.witness([b for b in normal_succ(S.g, n)], [i.id for i in S.g.nodes if i.kind == "for" and i.stmt is lc] + [S.g.exit],
+                        avoid=[bn for bn, _ in binds], edge_ok=lambda a, b, lab: lab != "exc" and (a, lab) not in cutb)
+        if w is not None and normal_succ(S.g, n)[0] not in [bn for bn, _ in binds]:
+            bad.append("a wrapped cell gets no bound-value getter although track_bound_values is on")
+        for a in S.ctx_alts(c.args[0]):
+            okt = isinstance(a, ast.Tuple) and len(a.elts) == 2 and is_pseudo(a.elts[0], ELEM) and _top_attr(a.elts[0].args[0]) == "co_freevars" \
+                and isinstance(a.elts[1], ast.Name) and a.elts[1].id == INDEX
+            if not okt:
+                bad.append(f"the wrapper is registered as `{unparse(a)[:50]}`, not (free variable name, its cell index)")
+            else:
+                for bn, bc in binds:
+                    for fa in [x for alt in S.ctx_alts(bc) for x in ast.walk(alt) if isinstance(x, ast.Call) and _self_call(x) in meths]:
+                        if [ast.dump(x) for x in fa.args[:2]] != [ast.dump(x) for x in a.elts]:
+                            bad.append("the bound-value getter is created for another name / cell index than the wrapper")
+    for kn, kc in keys:
+        for fa in [x for alt in S.ctx_alts(kc) for x in ast.walk(alt) if isinstance(x, ast.Call) and _self_call(x) in meths]:
+            idx = [x for x in fa.args if isinstance(x, ast.Name) and x.id == INDEX]
+            cellv = [x for x in fa.args if _top_attr(x) == "cell_contents"]
+            if not idx or not cellv:
+                bad.append("the cache-key getter is not created for this cell's index and contents")
+    ctx.check(not bad, f"{mc.key}:wrapper-and-getters-same-cell", "; ".join(sorted(set(bad))), "(name, index) of the loop's own cell everywhere", loc(mc, lc))
+    # ---- E3 globals
+    S = _S(ctx, mg)
+    wraps = _append_nodes(S, mg.node, "build_py_wrappers")
+    binds = _append_nodes(S, mg.node, "bindparam_trackers")
+    ctx.require(wraps and binds, f"{mg.key}: registration sites not found")
+    skip = _edges_where(S, lambda alts, pol, t: (not pol) and (
+        any(isinstance(a, ast.Call) and (dotted(a.func) or "").endswith("_deep_is_literal") for a in alts)
+        or any(isinstance(a, ast.Compare) and isinstance(a.ops[0], ast.In) and _top_attr(a.comparators[0]) == "__globals__" for a in alts)))
+    w = _every_iteration(S, lg, [n for n, _ in wraps], skip)
+    bad = []
+    if w is not None:
+        bad.append("a literal global the lambda refers to can be left unwrapped")
+    for n, c in wraps:
+        w2 = S.g.witness([b for b in normal_succ(S.g, n) if b not in [bn for bn, _ in binds]],
+                         [i.id for i in S.g.nodes if i.kind == "for" and i.stmt is lg] + [S.g.exit],
+                         avoid=[bn for bn, _ in binds], edge_ok=lambda a, b, lab: lab != "exc" and (a, lab) not in _edges_where(S, opt_off("track_bound_values")))
+        if w2 is not None:
+            bad.append("a wrapped global gets no bound-value getter although track_bound_values is on")
+        for a in S.ctx_alts(c.args[0]):
+            okt = isinstance(a, ast.Tuple) and len(a.elts) == 2 and is_pseudo(a.elts[0], ELEM) and _top_attr(a.elts[0].args[0]) == "co_names" \
+                and isinstance(a.elts[1], ast.Constant) and a.elts[1].value is None
+            if not okt:
+                bad.append(f"the global wrapper is registered as `{unparse(a)[:50]}`, not (global name, None)")
+            else:
+                for bn, bc in binds:
+                    for fa in [x for alt in S.ctx_alts(bc) for x in ast.walk(alt) if isinstance(x, ast.Call) and _self_call(x) in meths]:
+                        if not fa.args or ast.dump(fa.args[0]) != ast.dump(a.elts[0]):
+                            bad.append("the bound-value getter is created for another global name than the wrapper")
+    ctx.check(not bad, f"{mg.key}:literal-globals-wrapped", "; ".join(sorted(set(bad))) + " -- LIMIT = 5 at module level, lambda: t.c.q == LIMIT, LIMIT = 7",
+              "every literal global named by the code object: wrapper + bound-value getter of the same name", loc(mg, lg), w)
+    # ---- E4 wrappers that did not become parameters
+    S = _S(ctx, mp)
+    keys = _append_nodes(S, mp.node, "closure_trackers")
+    bad = []
+    if not keys:
+        bad.append("wrappers that produced no parameter are not added to the cache key")
+    else:
+        has = _edges_where(S, lambda alts, pol, t: pol and any(_has_sa_attr(a, "_has_param") for a in alts))
+        w = _every_iteration(S, lpw, [n for n, _ in keys], has)
+        if w is not None:
+            bad.append("a wrapper that produced no parameter can be skipped")
+        for kn, kc in keys:
+            facts = [x for alt in S.ctx_alts(kc) for x in ast.walk(alt) if isinstance(x, ast.Call) and _self_call(x) in meths]
+            if not facts or not all(any(is_pseudo(x, ELEM) for x in fa.args) for fa in facts):
+                bad.append("the cache-key getter is not created from the wrapper in hand")
+    ctx.check(not bad, f"{mp.key}:unbound-wrappers-become-key", "; ".join(bad) + " -- def go(flag): lambda: select(t).where(t.c.q > 1) if flag else select(t); "
+              "go(True); go(False) returns the first statement", "every closure wrapper without parameter -> cache-key getter", loc(mp, lpw))
+    # ---- E5 phases are called
+    init = ctx.func(f"{AC}.__init__")
+    S = _S(ctx, init)
+    phases = sorted({m.name for k, m, c, facts in code.regs} | {mp.name})
+    allowed = ("enable_tracking", "track_on", "__closure__")
+    for ph in phases:
+        if ph == "__init__":
+            continue
+        calls = [c for c in calls_in(init.node) if _self_call(c) == ph]
+        bad = []
+        if not calls:
+            bad.append(f"AnalyzedCode.__init__ never runs {ph}")
+        for c in calls:
+            for t, pol in S.guards(S.node_of(c)):
+                alts = S.alts(t, S.node_of(t) if S.node_of(t) is not None else S.node_of(c))
+                takes_track_on = any(_top_attr(a) == "track_on" for x in c.args for a in S.ctx_alts(x))
+                ok_attrs = allowed if takes_track_on else tuple(a for a in allowed if a != "track_on")
+                if pol and all(_top_attr(a) in ok_attrs for a in alts):
+                    continue
+                tn = S.node_of(t)
+                if tn is not None and S.g.nodes[tn].kind == "test":
+                    # the other outcome rejects the lambda with an error: not a way of skipping the phase
+                    others = [b for b, lab in S.g.succ[tn] if lab in ("true", "false") and (lab == "true") != _outcome(S.g.nodes[tn].stmt.test, t, pol)]
+                    if others and S.g.exit not in S.g.reachable(others):
+                        continue
+                bad.append(f"{ph} runs only if `{unparse(orig(t))[:40]}` is {pol}")
+        ctx.check(not bad, f"{init.key}:phase[{ph}]", "; ".join(bad), "runs unless enable_tracking / track_on / an empty closure say otherwise", loc(init))
+    # ---- E7 defaults
+    ocls = ctx.index.cls(f"{LAM}::LambdaOptions")
+    defaults: Dict[str, object] = {}
+    for k, vs in ocls.assigns.items():
+        if len(vs) == 1 and isinstance(vs[0], ast.Constant):
+            defaults[k] = vs[0].value
+    ctx.require({"enable_tracking", "track_closure_variables", "track_bound_values"} <= set(defaults), "LambdaOptions defaults not readable")
+    bad = []
+    seen = 0
+    for t, n, st in attr_stores(init.node):
+        if t in ("self.track_bound_values", "self.track_closure_variables"):
+            seen += 1
+            for a in S.alts(st.value, S.g.nodes_for(st)[0]):
+                v = _default_truth(a, defaults)
+                ctx.require(v is not _UNK, f"{init.key}: `{unparse(a)[:60]}` cannot be evaluated under the default options")
+                if not v:
+                    bad.append(f"{t} = `{unparse(a)[:60]}` is off under the default LambdaOptions")
+    ctx.require(seen >= 2, f"{init.key}: track_bound_values / track_closure_variables flags not assigned")
+    for ph in phases:
+        for c in [c for c in calls_in(init.node) if _self_call(c) == ph]:
+            for t, pol in S.guards(S.node_of(c)):
+                for a in S.alts(t, S.node_of(t) if S.node_of(t) is not None else S.node_of(c)):
+                    if _top_attr(a) == "enable_tracking":
+                        v = _default_truth(a, defaults)
+                        if v is _UNK or bool(v) != pol:
+                            bad.append(f"{ph} does not run under the default enable_tracking")
+    ctx.check(not bad, f"{init.key}:tracking-on-by-default", "; ".join(sorted(set(bad))) + " -- plain lambda_stmt(lambda: ...) would track nothing",
+              "track_bound_values, track_closure_variables and enable_tracking evaluate true for the default options", loc(init))
+
+
+R.mutant("r6-strings-skipped", LAM,
+         sub("            _bound_value = self._roll_down_to_literal(cell.cell_contents)\n\n            if coercions._deep_is_literal(_bound_value):\n                build_py_wrappers.append((fv, closure_index))",
+             "            _bound_value = self._roll_down_to_literal(cell.cell_contents)\n\n            if isinstance(_bound_value, str):\n                continue\n            if coercions._deep_is_literal(_bound_value):\n                build_py_wrappers.append((fv, closure_index))"), "C17-R6")
+R.mutant("r6-wrapper-other-index", LAM, sub("                build_py_wrappers.append((fv, closure_index))", "                build_py_wrappers.append((fv, 0))"), "C17-R6")
+R.mutant("r6-no-bound-getter-for-cells", LAM,
+         sub("                if track_bound_values:\n                    bindparam_trackers.append(\n                        self._bound_parameter_getter_func_closure(",
+             "                if track_bound_values and closure_index:\n                    bindparam_trackers.append(\n                        self._bound_parameter_getter_func_closure("), "C17-R6")
+R.mutant("r6-unbound-wrappers-not-keyed", LAM,
+         sub("            if not pywrapper._sa__has_param:\n", "            if not pywrapper._sa__has_param and not closure_trackers:\n"), "C17-R6")
+R.mutant("r6-closure-phase-needs-track-on", LAM, sub("            if closure:\n                self._init_closure(fn)", "            if closure and track_on:\n                self._init_closure(fn)"), "C17-R6")
+R.mutant("r6-bound-values-off-by-default", LAM,
+         sub("            opts.track_bound_values and opts.global_track_bound_values\n", "            opts.track_bound_values and not opts.global_track_bound_values\n"), "C17-R6")
+R.mutant("r6-closure-tracking-off-by-default", LAM,
+         sub("        self.track_closure_variables = track_closure_variables and not track_on\n", "        self.track_closure_variables = track_closure_variables and track_on\n"), "C17-R6")
+R.mutant("r6-global-getter-other-name", LAM,
+         sub("                        self._bound_parameter_getter_func_globals(name)\n", "                        self._bound_parameter_getter_func_globals(fn.__name__)\n"), "C17-R6")
+R.mutant("benign-r6-loops-restructured", LAM,
+         chain(sub("            if name not in fn.__globals__:\n                continue\n\n            _bound_value = self._roll_down_to_literal(fn.__globals__[name])\n\n            if coercions._deep_is_literal(_bound_value):\n                build_py_wrappers.append((name, None))\n                if track_bound_values:\n                    bindparam_trackers.append(\n                        self._bound_parameter_getter_func_globals(name)\n                    )",
+                   "            if name in fn.__globals__:\n                candidate = self._roll_down_to_literal(fn.__globals__[name])\n                if not coercions._deep_is_literal(candidate):\n                    continue\n                build_py_wrappers.append((name, None))\n                if not track_bound_values:\n                    continue\n                getter = self._bound_parameter_getter_func_globals(name)\n                bindparam_trackers.append(getter)"),
+               sub("            if not pywrapper._sa__has_param:\n                closure_trackers.append(\n                    self._cache_key_getter_tracked_literal(fn, pywrapper)\n                )",
+                   "            if pywrapper._sa__has_param:\n                continue\n            closure_trackers.append(\n                self._cache_key_getter_tracked_literal(fn, pywrapper)\n            )")), None)
